@@ -25,6 +25,7 @@ func init() {
 		ID:    "C01",
 		Level: "exploration",
 		Rule: "programs generated scope- and type-aware over the core grammar (three profiles: deep well-typed, hostile with a buried ill-typed/wrong-arity/unbound form, builtin-focused argument sweeps); " +
+			"re-entrant forms: bounded recursions whose recursive call sits in an argument position of every kind of operator form (thread-first/thread-last steps of 1..8 elements, calls, lambda lists, let/let*, cond, if, and/or, set!, dotimes, quasiquote, sequence constructors, callbacks, handlers, flet/labels, closures), so the form is active in several activations with different values; " +
 			"each is run by the real interpreter (LoadString in a fresh runtime) and by the independent reference interpreter; distinct_nontrivial counts distinct (construct-or-builtin, outcome class) and (construct pair) signatures of programs on which the model made a prediction and the real run took >= 5 evaluation steps",
 		Assumptions: []string{
 			"the reference interpreter (harness/refint) encodes docs/lang.md and builtin docstrings; where they are silent it follows what the repository test-suite pins (integer wraparound, (or)->false, exact-division rule of /, one loop binding for dotimes)",
@@ -165,6 +166,8 @@ var c01QuirkModes = []struct {
 
 func c01Profile(r *fw.RNG, idx int) (gen.Profile, string) {
 	p := gen.DefaultProfile()
+	p.Reentrant = 300
+	p.CaptureShadow = 250
 	switch idx % 4 {
 	case 0:
 		p.Hostile = 0
@@ -312,6 +315,7 @@ func c01Run(w *fw.W, idx int) {
 	prof, pname := c01Profile(r, idx)
 	g := gen.New(r, prof)
 	var forms []*sx.N
+	reKind := ""
 	if idx == 0 {
 		// a fixed program: the canonical instance of the let* shared-scope deviation
 		// (known finding), so that every run observes it whatever the seed
@@ -321,13 +325,25 @@ func c01Run(w *fw.W, idx int) {
 	} else if idx%5 == 4 {
 		pname = "builtin-sweep"
 		forms = c01Sweep(r, g)
+	} else if idx%10 == 7 {
+		// re-entrant forms: bounded recursions whose recursive call sits in an argument
+		// position of one kind of operator form, so the form is active in several
+		// activations at once, each with values of its own
+		pname = "reentrant"
+		forms, reKind = g.ReentrantProgram()
 	} else {
 		forms = g.Program()
 	}
 	src := sx.Render(forms, c01Layout(w.RNG(idx, "layout")))
 	w.Logf("source:\n%s", src)
 	t0 := time.Now()
-	real := c01Real(src, rt.Opts{})
+	ropts := rt.Opts{}
+	if reKind != "" || g.Feat["reentrant-recursion"] {
+		// call trees multiply (two call sites, loops, callbacks): the model's fuel (600 000,
+		// about 450 000 real steps), not the real step limit, has to be what gives out first
+		ropts.MaxSteps = 1_000_000
+	}
+	real := c01Real(src, ropts)
 	w.Eval(1)
 	t1 := time.Now()
 	w.Logf("real: %s steps=%d", real.rendered, real.steps)
@@ -362,6 +378,12 @@ func c01Run(w *fw.W, idx int) {
 			}
 			for sig := range m.sigs {
 				w.CoverKey("call=" + sig + "|" + outcome)
+			}
+			for sh := range g.Shape {
+				w.CoverKey("reentrant-shape=" + sh + "|" + outcome)
+			}
+			if reKind != "" {
+				w.Count("reentrant_programs", 1)
 			}
 			w.Count("steps_total", real.steps)
 			w.Count("probe_events", int64(len(real.trace)))
@@ -400,6 +422,11 @@ func c01Run(w *fw.W, idx int) {
 	case strings.HasPrefix(diff, "stderr"):
 		cls = "stderr"
 	}
+	if reKind != "" {
+		// by construction the program consists of recursions re-entering one kind of form
+		w.Violation("reentrant-form:"+reKind+":"+cls, diff, fmt.Sprintf("profile=%s kind=%s shapes=%v\nsource:\n%s\nreal: %s\nmodel: val=%v err=%v site=%s", pname, reKind, c01Shapes(g), src, real.rendered, m.val, m.err, c01Site(m.err)))
+		return
+	}
 	if pname == "builtin-sweep" {
 		if m := c01SweepRe.FindStringSubmatch(diff); m != nil {
 			if n := c01SweepName(forms, m[1]); n != "" {
@@ -408,6 +435,15 @@ func c01Run(w *fw.W, idx int) {
 		}
 	}
 	w.Violation("model-disagreement:"+cls, diff, fmt.Sprintf("profile=%s\nsource:\n%s\nreal: %s\nmodel: val=%v err=%v site=%s", pname, src, real.rendered, m.val, m.err, c01Site(m.err)))
+}
+
+func c01Shapes(g *gen.G) []string {
+	var out []string
+	for s := range g.Shape {
+		out = append(out, s)
+	}
+	sort.Strings(out)
+	return out
 }
 
 func c01Site(e *refint.Err) string {
